@@ -30,6 +30,7 @@ type HandlerCase struct {
 // Roles are the constructs of package service found by what they do.
 type Roles struct {
 	Start, Stop                 *ssa.Function
+	Launcher                    *ssa.Function // helper of start that holds the go statement (`launch(worker func())`), if any
 	Forward                     *ssa.Function // what start stores into service.onpub: the forwarding closure or method
 	Processor, Receiver, Sender *ssa.Function
 	GoEntries                   []*ssa.Go // all go statements of the library
@@ -191,6 +192,33 @@ func (c *Ctx) Roles() *Roles {
 			r.Accept = fn
 		}
 	}
+	// the go statement in a helper that is handed the function to start (`svc.launch(svc.processor)`): the start
+	// function is the one that calls that helper for each goroutine
+	if r.Start != nil {
+		viaParam := false
+		for _, call := range ir.Calls(r.Start) {
+			if g, ok := call.(*ssa.Go); ok {
+				if _, isParam := g.Common().Value.(*ssa.Parameter); isParam {
+					viaParam = true
+				}
+			}
+		}
+		if viaParam {
+			var caller *ssa.Function
+			same := true
+			for _, site := range c.P.Callers(r.Start) {
+				if caller == nil {
+					caller = site.Parent()
+				} else if caller != site.Parent() {
+					same = false
+				}
+			}
+			if caller != nil && same && recvNamed(caller) == "service" {
+				r.Launcher = r.Start
+				r.Start = caller
+			}
+		}
+	}
 	// authentication moved into a helper of the accept function: the accept function is the Server method above it
 	// that also starts the service
 	for i := 0; i < 3 && r.Accept != nil && r.Start != nil; i++ {
@@ -274,7 +302,11 @@ func (c *Ctx) Roles() *Roles {
 				r.Forward = fn
 			}
 		}
-		for _, call := range ir.Calls(r.Start) {
+		startCalls := ir.Calls(r.Start)
+		if r.Launcher != nil {
+			startCalls = append(startCalls, ir.Calls(r.Launcher)...)
+		}
+		for _, call := range startCalls {
 			g, ok := call.(*ssa.Go)
 			if !ok {
 				continue
